@@ -113,10 +113,7 @@ def r17a(chk, rid='R17.a'):
 def r17b(chk, rid='R17.b'):
     chk.rule(rid, "canonicalisation agreement between parsing and editing a media list: _setMediaText collapses to 'all' and drops repeated media types; appendMedium rejects additions to 'all', moves a type already present to the end (delete, then append) and clears the list when 'all' is appended; deleteMedium rejects an absent type; the serializer writes 'all' for the empty list")
     m = chk.repo.mod(ML)
-    st = ast.unparse(m.get('MediaList._setMediaText'))
-    chk.ob(rid, ML, 'MediaList._setMediaText', "'all' replaces everything collected so far", "if mediaType == 'all':" in st and 'finalseq = commentseqonly' in st, '', shape=True)
-    chk.ob(rid, ML, 'MediaList._setMediaText', 'a repeated media type is skipped', 'elif mediaType in mediaTypes:\n' in st and 'continue' in st, '', shape=True)
-    chk.ob(rid, ML, 'MediaList._setMediaText', 'one malformed query invalidates the list', 'if not v.wellformed:' in st and 'ok = False' in st, '', shape=True)
+    _eval_set_media_text(chk, rid, m)
     ap = m.get('MediaList.appendMedium')
     src = ast.unparse(ap)
     chk.ob(rid, ML, 'MediaList.appendMedium', "appending to a list that contains 'all' is rejected with InvalidModificationErr", "if 'all' in mts:" in src and 'InvalidModificationErr' in src, '', shape=True)
@@ -183,3 +180,81 @@ def r17c(chk, rid='R17.c'):
     vals = {const(e) for e in mt.elts} if isinstance(mt, (ast.List, ast.Tuple)) else set()
     want = {'all', 'braille', 'handheld', 'print', 'projection', 'speech', 'screen', 'tty', 'tv', 'embossed'}
     chk.ob(rid, MQ, 'MediaQuery.MEDIA_TYPES', 'the ten known media types', want <= vals, f'missing {sorted(want - vals)}')
+
+
+
+def _eval_set_media_text(chk, rid, m):
+    """MediaList._setMediaText after the production parse, evaluated on its syntax tree for
+    model sequences of comments and media queries (the parse result is supplied by the model)."""
+    import itertools
+
+    from sa.absint import Evaluator, Raised, Record
+
+    fn = m.get('MediaList._setMediaText')
+
+    class MQ(Record):
+        pass
+
+    class Comment(Record):
+        pass
+
+    class SeqM(Record):
+        pass
+
+    def seqm(readonly=False):
+        sq = SeqM(items=[])
+        sq.append = lambda item, *a, **k: sq.items.append(item)
+        return sq
+
+    # item kinds: comment, simple types, 'all', a query with features (no simple type), a malformed query
+    kinds = {'c': lambda: Record(type='COMMENT', value=Comment(cssText='/*c*/')),
+             'tv': lambda: Record(type='MediaQuery', value=MQ(mediaType='tv', wellformed=True)),
+             'print': lambda: Record(type='MediaQuery', value=MQ(mediaType='print', wellformed=True)),
+             'all': lambda: Record(type='MediaQuery', value=MQ(mediaType='all', wellformed=True)),
+             'feat': lambda: Record(type='MediaQuery', value=MQ(mediaType=None, wellformed=True)),
+             'bad': lambda: Record(type='MediaQuery', value=MQ(mediaType='tv', wellformed=False))}
+    n = bad = 0
+    first = ''
+    for length in range(0, 5):
+        for combo in itertools.product(sorted(kinds), repeat=length):
+            if length == 4 and combo.count('c') + combo.count('feat') > 2:
+                continue
+            items = [kinds[k]() for k in combo]
+            for it, k in zip(items, combo):
+                it.tag = k
+            errors = []
+            me = Record(_checkReadonly=lambda: None, _log=Record(error=lambda *a, **k: errors.append(a)), _wellformed=None, committed=None)
+            me._setSeq = lambda sq: setattr(me, 'committed', sq)
+            intr = {'ProdParser().parse': lambda *a, **k: (True, list(items), {}, []), 'Prod': lambda *a, **k: None, 'Sequence': lambda *a, **k: None,
+                    'PreDef.comment': lambda *a, **k: None, 'PreDef.comma': lambda *a, **k: None, 'MediaQuery': MQ, 'cssutils.css.csscomment.CSSComment': Comment,
+                    'cssutils.util.Seq': seqm, 'self._log.error': lambda *a, **k: errors.append(a), 'xml': Record(dom=Record(SyntaxErr='SyntaxErr'))}
+            res = Evaluator(fn, intrinsics=intr, module=m, cls='MediaList').run(self=me, mediaText='...')
+            n += 1
+            mqs = [k for k in combo if k != 'c']
+            # prescribed result
+            if isinstance(res, Raised):
+                got, want = f'raises {res.kind}', 'no exception'
+            elif 'bad' in mqs or not mqs:
+                # (a malformed query before any other decides; no query at all is an error)
+                firstbad = next((i for i, k in enumerate(mqs) if k == 'bad'), None)
+                want = ('rejected',)
+                got = ('rejected',) if me._wellformed is False and me.committed is None else ('accepted', me._wellformed)
+            else:
+                if 'all' in combo:
+                    i = combo.index('all')
+                    want_tags = [k for k in combo[:i] if k == 'c'] + ['all']
+                else:
+                    want_tags, seen = [], set()
+                    for k in combo:
+                        if k in ('tv', 'print'):
+                            if k in seen:
+                                continue
+                            seen.add(k)
+                        want_tags.append(k)
+                want = ('accepted', want_tags)
+                got = ('accepted', [it.tag for it in me.committed.items]) if me.committed is not None and me._wellformed else ('rejected',)
+            if got != want:
+                bad += 1
+                first = first or f'queries {list(combo)}: {got}, prescribed {want}'
+    chk.extra['medialist_cases_evaluated'] = n
+    chk.ob(rid, ML, 'MediaList._setMediaText', f"all {n} model lists: 'all' replaces everything but the comments before it, a repeated media type is dropped, queries without a simple type are kept, one malformed query or no query rejects the list", bad == 0, f'{bad} cases differ, e.g. {first}')
